@@ -121,6 +121,10 @@ SCENARIOS = collections.OrderedDict([
     ("import-bad-element", ("inited", [CREATE, T({"file": "in.xml"}, {"file": "imp_main_badelem.xsl"}), DESTROY], "thorough")),
     ("include", ("inited", [CREATE, {"api": "compile", "xsl": {"file": "inc_main.xsl"}, "as": "s"},
                             T({"file": "in.xml"}, {"compiled": "s"}), DESTROY], "thorough")),
+    # nested xsl:include (three levels, two includes in one module): the stack of module URIs and the include stack are vectors of
+    # strings that grow - and are copied element by element - while inner modules are compiled
+    ("include-nested", ("inited", [CREATE, {"api": "compile", "xsl": {"file": "inc3_main.xsl"}, "as": "s"},
+                                   T({"file": "in.xml"}, {"compiled": "s"}), DESTROY], "quick")),
     ("include-bad-xpath", ("inited", [CREATE, {"api": "compile", "xsl": {"file": "inc_main_badxpath.xsl"}, "as": "s"}, DESTROY], "thorough")),
     ("init-terminate", ("raw", [{"api": "initialize"}, {"api": "terminate"}], "thorough")),
     ("shared-manager", ("raw", [{"api": "initialize"}, CREATE, T({"text": XML_SMALL}, {"text": XSL_SMALL}), DESTROY, {"api": "terminate"}], "thorough")),
